@@ -175,6 +175,34 @@ package trend
 //@ ensures[C05] "range" forall kk :: 0 <= kk && kk < len(result) ==> 0 - 1 <= result[kk] && result[kk] <= 1
 //@ ensures[C03] consumed(snapshots) == len(snapshots) && closed(result)
 //@ ensures[C04] forall kk :: 0 <= kk && kk < len(result) ==> hor(result, kk) <= hor(snapshots, kk)
+//@ rel[C18] "price" param lam real
+//@ rel[C18] "price" assume lam > 0 && len(second(snapshots)) == len(snapshots) && (forall k :: 0 <= k && k < len(snapshots) ==> pscaled(second(snapshots)[k], snapshots[k], lam))
+//@ rel[C18] "price" assume (istype(e.Envelope.Ma, "trend.Sma") && as(e.Envelope.Ma, "trend.Sma").Period >= 1) || (istype(e.Envelope.Ma, "trend.Ema") && as(e.Envelope.Ma, "trend.Ema").Period >= 1)
+//@ rel[C18] "price" step forall j :: 0 <= j && j < len(snapshots) ==> second(arg(Envelope_Compute, 0, 0))[j] == lam * arg(Envelope_Compute, 0, 0)[j]
+//@ rel[C18] "price" step forall i :: 0 <= i && i < len(closingsSplice[1]) ==> second(closingsSplice[1])[i] == lam * closingsSplice[1][i]
+//@ rel[C18] "price" use[cond] smaS_scale_n(arg(Envelope_Compute, 0, 0), second(arg(Envelope_Compute, 0, 0)), lam, as(e.Envelope.Ma, "trend.Sma").Period, len(snapshots), _)
+//@ rel[C18] "price" use[cond] ema_scale(arg(Envelope_Compute, 0, 0), second(arg(Envelope_Compute, 0, 0)), lam, as(e.Envelope.Ma, "trend.Ema").Period, emam(as(e.Envelope.Ma, "trend.Ema")), _)
+//@ rel[C18] "price" step forall i :: 0 <= i && i < len(middles) ==> second(middles)[i] == lam * middles[i]
+//@ rel[C18] "price" use forall i :: mul_assoc(lam, middles[i], 1 + e.Envelope.Percentage / 100)
+//@ rel[C18] "price" use forall i :: mul_assoc(lam, middles[i], 1 - e.Envelope.Percentage / 100)
+//@ rel[C18] "price" step forall i :: 0 <= i && i < len(uppers) ==> second(uppers)[i] == lam * uppers[i] && second(lowers)[i] == lam * lowers[i]
+//@ rel[C18] "price" use forall i :: mul_cmp(lam, closingsSplice[1][i], lowers[i])
+//@ rel[C18] "price" use forall i :: mul_cmp(lam, closingsSplice[1][i], uppers[i])
+//@ rel[C18] "price" ensures len(second(result)) == len(result) && (forall k :: 0 <= k && k < len(result) ==> second(result)[k] == result[k])
+//@ rel[C18] "volume" param mu real
+//@ rel[C18] "volume" assume mu > 0 && len(second(snapshots)) == len(snapshots) && (forall k :: 0 <= k && k < len(snapshots) ==> vscaled(second(snapshots)[k], snapshots[k], mu))
+//@ rel[C18] "volume" assume (istype(e.Envelope.Ma, "trend.Sma") && as(e.Envelope.Ma, "trend.Sma").Period >= 1) || (istype(e.Envelope.Ma, "trend.Ema") && as(e.Envelope.Ma, "trend.Ema").Period >= 1)
+//@ rel[C18] "volume" step forall j :: 0 <= j && j < len(snapshots) ==> second(arg(Envelope_Compute, 0, 0))[j] == 1 * arg(Envelope_Compute, 0, 0)[j]
+//@ rel[C18] "volume" step forall i :: 0 <= i && i < len(closingsSplice[1]) ==> second(closingsSplice[1])[i] == 1 * closingsSplice[1][i]
+//@ rel[C18] "volume" use[cond] smaS_scale_n(arg(Envelope_Compute, 0, 0), second(arg(Envelope_Compute, 0, 0)), 1, as(e.Envelope.Ma, "trend.Sma").Period, len(snapshots), _)
+//@ rel[C18] "volume" use[cond] ema_scale(arg(Envelope_Compute, 0, 0), second(arg(Envelope_Compute, 0, 0)), 1, as(e.Envelope.Ma, "trend.Ema").Period, emam(as(e.Envelope.Ma, "trend.Ema")), _)
+//@ rel[C18] "volume" step forall i :: 0 <= i && i < len(middles) ==> second(middles)[i] == 1 * middles[i]
+//@ rel[C18] "volume" use forall i :: mul_assoc(1, middles[i], 1 + e.Envelope.Percentage / 100)
+//@ rel[C18] "volume" use forall i :: mul_assoc(1, middles[i], 1 - e.Envelope.Percentage / 100)
+//@ rel[C18] "volume" step forall i :: 0 <= i && i < len(uppers) ==> second(uppers)[i] == 1 * uppers[i] && second(lowers)[i] == 1 * lowers[i]
+//@ rel[C18] "volume" use forall i :: mul_cmp(1, closingsSplice[1][i], lowers[i])
+//@ rel[C18] "volume" use forall i :: mul_cmp(1, closingsSplice[1][i], uppers[i])
+//@ rel[C18] "volume" ensures len(second(result)) == len(result) && (forall k :: 0 <= k && k < len(result) ==> second(result)[k] == result[k])
 
 //@ func GoldenCrossStrategy.Compute
 //@ requires 1 <= t.FastEma.Period && t.FastEma.Period <= t.SlowEma.Period && consumed(c) == 0
